@@ -73,6 +73,9 @@ def corpus():
         {"op": "in_ranges_raw", "tag": "corpus-raw", "in": {"t": nested, "chrom": "chr1", "starts": [], "ends": [15, 35], "mode": "inner"}},
         {"op": "in_ranges_raw", "tag": "corpus-raw", "in": {"t": nested, "chrom": "chr2", "starts": [], "ends": [], "mode": "outer"}},
         {"op": "into_ranges", "tag": "corpus-S", "in": {"a": nested, "b": [], "default": "dflt"}},
+        # extension 5c: trim-intersection and subtraction partition the bases of a
+        {"op": "trim_subtract", "tag": "corpus-dual", "in": {"a": nested + [["chr2", 5, 9, "d"]], "b": [["chr1", 15, 50, "x"], ["chr1", 40, 120, "y"]]}},
+        {"op": "trim_subtract", "tag": "corpus-dual", "in": {"a": nested, "b": []}},
         # natural chromosome order != string order (groupby must not sort)
         {"op": "by_ranges", "tag": "corpus-chromorder",
          "in": {"a": [["chr2", 0, 10, "a"], ["chr10", 0, 10, "b"]], "b": [["chr2", 5, 6, "q"], ["chr10", 0, 3, "r"]],
@@ -382,7 +385,32 @@ def gen_cases(rng, tier):
         # (2) representation, call form, chromosome names
         _modify(rng, c, p_rep=0.3 if big else 0.2, p_call=0.3 if big else 0.2, p_chrom=0.25)
     cases += _raw_cases(rng, quick)
+    cases += _dual_cases(rng, quick)
     return cases
+
+
+def _dual_cases(rng, quick):
+    """extension 5c: a.intersection(b, mode='trim') and a.subtract(b) on the same pair: the two results partition the
+    bases of a on every chromosome (Props/C07Dual.lean), on pairs of small tables and on random nested / abutting /
+    overlapping tables, b also shuffled and on chromosomes missing from a"""
+    out = []
+    small = T.small_tables(3, 3, prefix="a")
+    smallb = T.small_tables(3, 3, prefix="b")
+    for _ in range(80 if quick else 1500):
+        out.append({"op": "trim_subtract", "tag": "exh-dual", "in": {"a": rng.choice(small), "b": rng.choice(smallb)}})
+    for _ in range(60 if quick else 800):
+        chroms = rng.choice([("chr1",), ("chr1", "chr2"), ("chr1", "chr2", "chrX")])
+        a = T.random_table(rng, 30, chroms, prefix="a")
+        b = T.random_table(rng, 12, rng.choice([chroms, chroms[:1], ("chr7",)]), prefix="b")
+        tag = "random-dual"
+        if rng.random() < 0.3:
+            b = _shuffle_queries(rng, b)
+            tag = "random-dual-qorder"
+        i = {"a": a, "b": b}
+        if rng.random() < 0.3:
+            i["sub"] = rng.randint(1, 10 ** 6)
+        out.append({"op": "trim_subtract", "tag": tag, "in": i})
+    return out
 
 
 def _raw_cases(rng, quick):
@@ -548,6 +576,12 @@ def run_impl(case):
         return [_val(x) for x in res]
     a0, a = table("a")
     b0, b = table("b")
+    if op == "trim_subtract":
+        inter = a.intersection(b, mode="trim")
+        sub = a.subtract(b)
+        if type(inter) is not type(a) or type(sub) is not type(a):
+            return {"__error__": "WrongClass", "msg": f"{type(inter).__name__} / {type(sub).__name__} from a {type(a).__name__}"}
+        return {"inter": T.rows_of(inter), "sub": T.rows_of(sub)} if unchanged((a0, a), (b0, b)) else mutated
     out = _run(a, b, op, i, form)
     return out if not chk or unchanged((a0, a), (b0, b)) else mutated
 
